@@ -1,0 +1,18 @@
+// +build verif
+
+package sqlittle
+
+import (
+	sdb "github.com/alicebob/sqlittle/db"
+)
+
+// VerifWrap makes a high level DB from a low level Database (verification
+// hook, build tag `verif`), the same way Open() does.
+func VerifWrap(d *sdb.Database) *DB {
+	return &DB{db: d}
+}
+
+// VerifLow gives the low level Database of a DB (verification hook).
+func (db *DB) VerifLow() *sdb.Database {
+	return db.db
+}
